@@ -317,6 +317,20 @@ func (d *Decoder) unmarshal(val reflect.Value, tagType byte) error {
 		vt := val.Type() // receiver must be []int or []int64
 		if vt.Kind() == reflect.Interface {
 			vt = reflect.TypeOf([]int64{}) // pass
+		} else if vt.Kind() == reflect.Array && vt.Len() == int(aryLen) &&
+			(vt.Elem().Kind() == reflect.Int64 || vt.Elem().Kind() == reflect.Uint64) {
+			for i := 0; i < int(aryLen); i++ {
+				value, err := d.readInt64()
+				if err != nil {
+					return err
+				}
+				if elem := val.Index(i); elem.CanUint() {
+					elem.SetUint(uint64(value))
+				} else {
+					elem.SetInt(value)
+				}
+			}
+			return nil
 		} else if vt.Kind() != reflect.Slice {
 			return errors.New("cannot parse TagLongArray to " + vt.String() + ", it must be a slice")
 		}
